@@ -186,7 +186,7 @@ def static_case(case, fail):
     for i in range(n):
         for sgm in 'XYZ':
             want = t0[tables[i][sgm]][i]
-            if abs(t1[sgm][i] - want) > 1e-15:
+            if not abs(t1[sgm][i] - want) <= 1e-15:
                 fail('noise_table_relabelled', f'qubit {i} P_def({sgm})={t1[sgm][i]} '
                      f'!= P_undef({tables[i][sgm]})={want}')
                 break
